@@ -430,6 +430,7 @@ impl JoinReorder {
 
         // First, extract join conditions from the filter predicate
         self.extract_join_conditions(&filter.predicate, &mut all_conditions);
+        let conditions_from_filter = all_conditions.len();
 
         // Then collect from the join tree
         let mut extra_join_filters: Vec<Expr> = Vec::new();
@@ -458,6 +459,22 @@ impl JoinReorder {
             self.rebuild_filter_without_join_conditions(&filter.predicate, &used_conditions);
 
         let mut plan = join_result;
+        // An ON pair of the flattened tree that did not become an edge (its
+        // columns could not be attributed to one relation each, e.g. `t.a`
+        // when t sits under a projection) is still a condition of the query:
+        // the filter predicate is rebuilt from its own conjuncts only.
+        for (idx, (l, r)) in all_conditions.iter().enumerate().skip(conditions_from_filter) {
+            if !used_conditions.contains(&idx) {
+                plan = LogicalPlan::Filter(crate::planner::FilterNode {
+                    input: Arc::new(plan),
+                    predicate: Expr::BinaryExpr {
+                        left: Box::new(l.clone()),
+                        op: BinaryOp::Eq,
+                        right: Box::new(r.clone()),
+                    },
+                });
+            }
+        }
         // Join-node filter expressions collected during flattening must be
         // re-applied — dropping them turns joins into cross products.
         for f in &extra_join_filters {
@@ -1697,7 +1714,10 @@ impl JoinReorder {
                     schema.fields().iter().map(|f| f.name.clone()).collect();
 
                 let name = match plan {
-                    LogicalPlan::Project(_n) => "project".to_string(),
+                    // `t.a` must still find a projection over t
+                    LogicalPlan::Project(_n) => self
+                        .get_underlying_table_name(plan)
+                        .unwrap_or_else(|| "project".to_string()),
                     LogicalPlan::Aggregate(_n) => "aggregate".to_string(),
                     _ => "relation".to_string(),
                 };
